@@ -82,6 +82,39 @@ pub fn run(reg: &dyn Registry, ctx: &Ctx) -> Outcome {
                 }
             }
 
+            // (1c) the other way to make a clone, Clone::clone_from: a target in another state (fresh; the
+            // next state of the set) is overwritten with a clone of state i; it must then be a clone in every
+            // respect: equal to the original, identical continuations
+            for (i, s) in states.iter().enumerate() {
+                let j = (i + 1) % states.len();
+                for (tname, mut target) in [("a fresh generator", makers[s.maker].make()), ("a generator in another state", materialise(&makers, &states[j]))] {
+                    let r = crate::ops::guarded(|| target.clone_from_dyn(objs[i].as_ref()));
+                    ctx.add("clones", 1);
+                    let rp = json!({"kind":"note","type":info.name,"maker":makers[s.maker].describe(),"ops":ops_json(&s.history),"clone_from_target":tname,"target_ops":ops_json(&states[j].history)});
+                    if let Err(o) = r {
+                        ctx.violation(&format!("C10:{}:clone_from-panic", info.name), &format!("{}: clone_from panicked: {:?}", info.name, o), rp);
+                        break;
+                    }
+                    if info.has_eq && target.eq_dyn(objs[i].as_ref()) != Some(true) {
+                        ctx.violation(&format!("C10:{}:clone_from-not-equal", info.name), &format!("{}: {} overwritten by clone_from with the state after {} does not compare equal to it", info.name, tname, ops_short(&s.history)), rp);
+                        break;
+                    }
+                    let cont = &conts[(i * 5 + 1) % conts.len()];
+                    let mut a = materialise(&makers, s);
+                    let oa = continuation_obs(&mut a, cont);
+                    let ob = continuation_obs(&mut target, cont);
+                    ctx.add("transitions", cont.len() as u64);
+                    if oa != ob {
+                        ctx.violation(
+                            &format!("C10:{}:clone_from-diverges", info.name),
+                            &format!("{}: {} overwritten by clone_from with the state after {} returns {:?} under {} where the original returns {:?}", info.name, tname, ops_short(&s.history), ob.iter().map(|o| o.to_json()).collect::<Vec<_>>(), ops_short(cont), oa.iter().map(|o| o.to_json()).collect::<Vec<_>>()),
+                            rp,
+                        );
+                        break;
+                    }
+                }
+            }
+
             // (1b) clones taken around call counts 2^k (per-object counters that Clone / == could treat
             // inconsistently): after 2^k-2 .. 2^k+1 native calls, k = 8, 16; compared 2^k+4 calls ahead
             if info.family != Family::Core {
@@ -249,6 +282,47 @@ pub fn run(reg: &dyn Registry, ctx: &Ctx) -> Outcome {
                 ctx.add("equal_pairs", equal_pairs);
                 ctx.add("equal_pairs_from_different_histories", equal_diff_history);
                 ctx.add("unequal_pairs_same_seed_buffered", unequal_same_block);
+            }
+            // (3) neighbours of a state built through the serde image (where the type has one): every
+            // single-byte change of the image of two states; a neighbour that deserialises and compares
+            // equal to the original must have the same future (== that ignores part of the state)
+            if info.has_eq {
+                let future: Vec<Op> = {
+                    let bb = info.block_words.unwrap_or(4) * info.word_bits / 8;
+                    if info.family == Family::Core { vec![Op::U32, Op::U32, Op::U32] } else { vec![Op::U64, Op::U32, Op::Fill(bb + 9), Op::U64] }
+                };
+                for si in [0usize, states.len() / 2, states.len() - 1] {
+                    let Some(img) = objs[si].ser() else { break };
+                    for p in 0..img.len() {
+                        for flip in [0x01u8, 0x80] {
+                            let mut im2 = img.clone();
+                            im2[p] ^= flip;
+                            let Some(Ok(mut nb)) = ty.de(&im2) else { continue };
+                            ctx.add("image_neighbours", 1);
+                            let e1 = nb.eq_dyn(objs[si].as_ref()) == Some(true);
+                            let e2 = objs[si].eq_dyn(nb.as_ref()) == Some(true);
+                            if e1 != e2 {
+                                ctx.violation(&format!("C10:{}:eq-asymmetric", info.name), &format!("{}: == is not symmetric between the state after {} and the state whose serde image differs from its image in byte {}", info.name, ops_short(&states[si].history), p), json!({"kind":"note","type":info.name,"maker":makers[states[si].maker].describe(),"ops":ops_json(&states[si].history),"image_byte":p,"flip":flip}));
+                                break;
+                            }
+                            if !e1 {
+                                continue;
+                            }
+                            ctx.add("image_neighbours_equal", 1);
+                            let mut orig = materialise(&makers, &states[si]);
+                            let oa = continuation_obs(&mut orig, &future);
+                            let ob = continuation_obs(&mut nb, &future);
+                            if oa != ob {
+                                ctx.violation(
+                                    &format!("C10:{}:equal-but-different-future", info.name),
+                                    &format!("{}: the state after {} and the state restored from its serde image with byte {} changed (xor {:#x}) compare equal, but under {} they return {:?} and {:?}", info.name, ops_short(&states[si].history), p, flip, ops_short(&future), oa.iter().map(|o| o.to_json()).collect::<Vec<_>>(), ob.iter().map(|o| o.to_json()).collect::<Vec<_>>()),
+                                    json!({"kind":"note","type":info.name,"maker":makers[states[si].maker].describe(),"ops":ops_json(&states[si].history),"image_byte":p,"flip":flip}),
+                                );
+                                break;
+                            }
+                        }
+                    }
+                }
             }
             if info.name == "Hc128Rng" || info.name == "Xoshiro256PlusPlus" {
                 ctx.sample(json!({"type": info.name, "states": states.len(), "example_state": ops_json(&states[states.len() / 2].history), "continuations": conts.len()}));
